@@ -84,6 +84,8 @@ class Check:
     def floor(self, rule, what, found, floor):
         if self.secondary:
             return self.ob(rule, "count:" + what, True, "%s: %d instance(s) in configuration %s (floor %d applies to the primary configuration)" % (what, found, self.secondary[0], floor))
+        if os.environ.get("CEDAR_VERIF_FLOORS"):
+            print("FLOOR %s %s found=%d floor=%d" % (rule, what, found, floor))
         return self.ob(rule, "floor:" + what, found >= floor,
                        "%s: found %d instance(s), floor %d (count confirmed by hand)" % (what, found, floor),
                        key="%s:floor:%s" % (rule, what), sample={"found": found, "floor": floor})
